@@ -988,20 +988,10 @@ func (c *callable) Value(env *env) reflect.Value {
 		}
 		err := nvm.runFunc(fn, vars)
 		if err != nil {
-			if p, ok := err.(*PanicError); ok {
-				var msg string
-				for ; p != nil; p = p.next {
-					msg = "\n" + msg
-					if p.recovered {
-						msg = " [recovered]" + msg
-					}
-					msg = p.String() + msg
-					if p.next != nil {
-						msg = "\tpanic: " + msg
-					}
-				}
-				err = &fatalError{msg: msg}
-			} else if env.ctx != nil && err == env.ctx.Err() {
+			// A *PanicError goes on through the native function that has
+			// called fn: if a Scriggo function has called the native function,
+			// it continues to panic with the same panics (see convertPanic).
+			if env.ctx != nil && err == env.ctx.Err() {
 				err = stopError{err}
 			}
 			panic(err)
